@@ -52,7 +52,9 @@ LEVEL_TEXT = ("Seeded valid trees (all families, BTree/TreeSet, both "
               "ghost, the checker being the first thing that touches them) "
               "and with a seeded subset of nodes evicted -- and, between "
               "them, reject every invalid one with AssertionError without "
-              "crashing. Sampling.")
+              "crashing -- the damaged stored tree also cold, on connections "
+              "of their own where a checker is the first thing that touches "
+              "it. Sampling.")
 
 KINDS = ["swap-adjacent", "swap-distant", "dup-key", "shift-key-up",
          "shift-key-down", "key-past-bound", "sep-below-left",
